@@ -2,7 +2,7 @@
 import os, json, random, subprocess, shutil
 import vf, pipeline
 LEVEL = "model_checking"
-UP = {"Listen": "LISTEN", "Flag": "FLAG", "Domain": "DOMAIN", "Host": "HOST", "TTL": "TTL2", "Mix": "MIX", "Pair": "PAIR", "Bogus": "BOGUS", "Five": "FIVE", "Many": "MANY"}
+UP = {"Listen": "LISTEN", "Flag": "FLAG", "Domain": "DOMAIN", "Host": "HOST", "TTL": "TTL2", "Mix": "MIX", "Pair": "PAIR", "Bogus": "BOGUS", "Five": "FIVE", "Many": "MANY", "Quiet": "QUIET", "Fail": "FAIL"}
 TOKS = [("53", "int"), ("-7", "int"), ("1.5", "float"), ("On", "bool1"), ("off", "bool0"), ("YES", "bool1"), ("no", "bool0"), ("true", "bool1"),
         ("False", "bool0"), ("1", "int1"), ("0", "int0"), ("mail", "str"), ("a b", "str"), ("it's", "str"), ('say "hi"', "str"), (".5", "str"),
         ("5.", "str"), ("1.2.3", "str"), ("", "str"), ("x\\y", "str"), ("TRUE", "bool1"), ("OFF", "bool0"), ("Yes", "bool1"), ("No", "bool0")]
@@ -35,8 +35,8 @@ def rand_aconf(rng, n):
         for _ in range(rng.randint(0, 4)):
             r = rng.random()
             if r < 0.55:
-                name = rng.choice(["Listen", "Flag", "TTL", "Mix", "Pair", "Bogus", "Five", "Many"]) if rng.random() < 0.9 else rng.choice(["Domain", "Host"])
-                k = {"Listen": 1, "Flag": 1, "TTL": 1, "Pair": 2, "Bogus": 1, "Domain": 1, "Host": 1, "Five": 5, "Many": rng.randint(3, 8)}.get(name, rng.randint(0, 4))
+                name = rng.choice(["Listen", "Flag", "TTL", "Mix", "Pair", "Bogus", "Five", "Many", "Quiet", "Fail"]) if rng.random() < 0.9 else rng.choice(["Domain", "Host"])
+                k = {"Listen": 1, "Flag": 1, "TTL": 1, "Pair": 2, "Bogus": 1, "Domain": 1, "Host": 1, "Five": 5, "Many": rng.randint(3, 8), "Quiet": 1, "Fail": 1}.get(name, rng.randint(0, 4))
                 if rng.random() < 0.1: k = max(0, k + rng.choice([-1, 1]))
                 ln = line("opt", name, k)
                 if name in ("Five", "Many") and rng.random() < 0.7:
@@ -47,6 +47,7 @@ def rand_aconf(rng, n):
                     for j, a in enumerate(ln["args"]):
                         if j < len(want) and rng.random() < 0.9:
                             t = rng.choice(pick[want[j]]); a["txt"], a["kind"] = t[0], t[1]
+                if name == "Fail" and ln["args"] and rng.random() < 0.3: ln["args"][0] = {"txt": "bad", "kind": "str"}
                 out.append(ln)
             elif r < 0.85 and depth < 3:
                 name = rng.choice(["Domain", "Host"]) if rng.random() < 0.9 else "Listen"
@@ -62,13 +63,13 @@ def rand_aconf(rng, n):
     docs = []
     for _ in range(n):
         lines = []; body(0, lines)
-        docs.append({"lines": lines, "ci": rng.random() < 0.5, "ignore": rng.random() < 0.4})
+        docs.append({"lines": lines, "ci": rng.random() < 0.5, "ignore": rng.random() < 0.4, "defh": rng.random() < 0.35})
     return docs
 
 
 def well_defined(doc):
     """Unregistered sections under ignore-unknown are undocumented: such documents are not judged."""
-    if not doc["ignore"]:
+    if not (doc["ignore"] or doc.get("defh")):
         return True
     return not any(l["t"] in ("open", "close") and (l["name"] == "Bogus" or (l["alt"] and not doc["ci"])) for l in doc["lines"])
 
@@ -103,7 +104,7 @@ def run_aconf(chk, exe, docs, rng, tag, renderings):
                 text, m = render_aconf(rng, d)
                 p = os.path.join(ddir, "%d-%d.conf" % (i, r))
                 with open(p, "w") as f: f.write(text)
-                lf.write("%d %s\n" % ((1 if d["ci"] else 0) | (2 if d["ignore"] else 0), p))
+                lf.write("%d %s\n" % ((1 if d["ci"] else 0) | (2 if d["ignore"] else 0) | (4 if d.get("defh") else 0), p))
                 items.append((d, m, text))
     out = os.path.join(ddir, "obs.ndjson")
     p = subprocess.run([exe, "aconf", os.path.join(ddir, "list.txt"), out], capture_output=True, text=True, timeout=3000)
